@@ -67,22 +67,102 @@ def edge_order_complete_and_parent_first_2(src: List[int], dst: List[int]) -> bo
     return _check(src, dst)
 
 
-def edge_order_complete_and_parent_first_3(src: List[int], dst: List[int]) -> bool:
+def edge_order_complete_and_parent_first_3_r0(src: List[int], dst: List[int]) -> bool:
     """
     pre: len(src) == 3 and len(dst) == 3
     pre: all(0 <= s <= 3 for s in src) and all(0 <= d <= 3 for d in dst)
+    pre: 0 not in dst
     pre: is_tree(src, dst)
     post: _
     """
     return _check(src, dst)
 
 
-def edge_order_complete_and_parent_first_4(src: List[int], dst: List[int], root: int) -> bool:
+def edge_order_complete_and_parent_first_3_r1(src: List[int], dst: List[int]) -> bool:
     """
-    pre: len(src) == 4 and len(dst) == 4 and 0 <= root <= 4
+    pre: len(src) == 3 and len(dst) == 3
+    pre: all(0 <= s <= 3 for s in src) and all(0 <= d <= 3 for d in dst)
+    pre: 1 not in dst
+    pre: is_tree(src, dst)
+    post: _
+    """
+    return _check(src, dst)
+
+
+def edge_order_complete_and_parent_first_3_r2(src: List[int], dst: List[int]) -> bool:
+    """
+    pre: len(src) == 3 and len(dst) == 3
+    pre: all(0 <= s <= 3 for s in src) and all(0 <= d <= 3 for d in dst)
+    pre: 2 not in dst
+    pre: is_tree(src, dst)
+    post: _
+    """
+    return _check(src, dst)
+
+
+def edge_order_complete_and_parent_first_3_r3(src: List[int], dst: List[int]) -> bool:
+    """
+    pre: len(src) == 3 and len(dst) == 3
+    pre: all(0 <= s <= 3 for s in src) and all(0 <= d <= 3 for d in dst)
+    pre: 3 not in dst
+    pre: is_tree(src, dst)
+    post: _
+    """
+    return _check(src, dst)
+
+
+def edge_order_complete_and_parent_first_4_r0(src: List[int], dst: List[int]) -> bool:
+    """
+    pre: len(src) == 4 and len(dst) == 4
     pre: all(0 <= s <= 4 for s in src) and all(0 <= d <= 4 for d in dst)
-    pre: root not in dst
+    pre: 0 not in dst
     pre: is_tree(src, dst)
     post: _
     """
     return _check(src, dst)
+
+
+def edge_order_complete_and_parent_first_4_r1(src: List[int], dst: List[int]) -> bool:
+    """
+    pre: len(src) == 4 and len(dst) == 4
+    pre: all(0 <= s <= 4 for s in src) and all(0 <= d <= 4 for d in dst)
+    pre: 1 not in dst
+    pre: is_tree(src, dst)
+    post: _
+    """
+    return _check(src, dst)
+
+
+def edge_order_complete_and_parent_first_4_r2(src: List[int], dst: List[int]) -> bool:
+    """
+    pre: len(src) == 4 and len(dst) == 4
+    pre: all(0 <= s <= 4 for s in src) and all(0 <= d <= 4 for d in dst)
+    pre: 2 not in dst
+    pre: is_tree(src, dst)
+    post: _
+    """
+    return _check(src, dst)
+
+
+def edge_order_complete_and_parent_first_4_r3(src: List[int], dst: List[int]) -> bool:
+    """
+    pre: len(src) == 4 and len(dst) == 4
+    pre: all(0 <= s <= 4 for s in src) and all(0 <= d <= 4 for d in dst)
+    pre: 3 not in dst
+    pre: is_tree(src, dst)
+    post: _
+    """
+    return _check(src, dst)
+
+
+def edge_order_complete_and_parent_first_4_r4(src: List[int], dst: List[int]) -> bool:
+    """
+    pre: len(src) == 4 and len(dst) == 4
+    pre: all(0 <= s <= 4 for s in src) and all(0 <= d <= 4 for d in dst)
+    pre: 4 not in dst
+    pre: is_tree(src, dst)
+    post: _
+    """
+    return _check(src, dst)
+
+
